@@ -80,6 +80,7 @@ class Summaries(object):
         self._name_busy = set()
         self._known_local = {}
         self._locals = {}
+        self._nw_cache = {}
         self._comp_targets = {}
         self._final = False
         self._solve()
@@ -340,11 +341,14 @@ class Summaries(object):
                 offset = 1     # self is the fresh object
             elif tgt.kind == "classmethod":
                 offset = 1
+        npos = len(tgt.params)
         for i, a in enumerate(call.args):
             if isinstance(a, ast.Starred):
                 break
-            if i + offset < len(allp):
+            if i + offset < npos:
                 out[i + offset] = a
+            elif tgt.vararg:
+                out.setdefault("varargs", []).append(a)
         for kwd in call.keywords:
             if kwd.arg is not None and kwd.arg in allp:
                 out[allp.index(kwd.arg)] = kwd.value
@@ -369,6 +373,14 @@ class Summaries(object):
                             out.add((r2, compose(t2, t)))
                 elif i == 0 and tgt.name == "__init__":
                     out.add(("FRESH", ""))
+                elif tgt.vararg and i == len(tgt.params + tgt.kwonly) and args.get("varargs"):
+                    for a in args["varargs"]:
+                        for (r2, t2) in self.origin(a, f, node):
+                            if r2 == "CONST":
+                                continue
+                            # t is relative to the tuple of extra arguments: its elements are the arguments
+                            t3 = "" if t in ("child", "val") else t
+                            out.add((r2, compose(t2, t3)) if r2 != "FRESH" else ("FRESH", ""))
                 else:
                     # defaulted parameter: its default object (None/constant) - nothing to write
                     out.add(("CONST", ""))
@@ -599,10 +611,25 @@ class Summaries(object):
                         self._map_callee(W, r, {0: recv} if recv is not None else {}, f, node, call)
 
     # ------------------------------------------------------------------ queries
+    def event_writes(self, f, node, ev):
+        """writes contributed by one evaluation event."""
+        W = {}
+        self._event_into(f, node, ev, W)
+        return list(W.values())
+
     def node_writes(self, f, node):
         """visible and invisible writes contributed by one CFG node (own and through callees)."""
+        key = (f.qualname, node.id)
+        if key in self._nw_cache:
+            return self._nw_cache[key]
         W = {}
         for ev in node_events(node):
+            self._event_into(f, node, ev, W)
+        self._nw_cache[key] = list(W.values())
+        return self._nw_cache[key]
+
+    def _event_into(self, f, node, ev, W):
+        if True:
             k = ev["kind"]
             a = ev["ast"]
             if k in ("store_attr", "aug_attr", "del_attr"):
@@ -620,7 +647,6 @@ class Summaries(object):
                 self._dunder(ev["left"], "__eq__", [ev["right"]], f, node, W)
             elif k == "iter":
                 self._dunder(a, "__iter__", [], f, node, W)
-        return list(W.values())
 
     def writes(self, f):
         return list(self.W.get(f.qualname, {}).values())
